@@ -432,3 +432,48 @@ def cli_corpus():
         c(mode="constant", dur=d200, conc=2, raw=hx("--nope")),
         c(mode="constant", dur=d200, conc=2, raw=hx("extra-positional")),
     ]
+
+
+def plan_compare(rec):
+    """plan cases: equality, except that the model's `same=` token has `*` where it cannot say."""
+    i, m = rec["impl"].split(), rec["model"].split()
+    if len(i) != len(m):
+        return "model=%s impl=%s" % (rec["model"], rec["impl"])
+    for x, y in zip(i, m):
+        if x.startswith("same=") and y.startswith("same="):
+            xs, ys = x[5:].split(","), y[5:].split(",")
+            if len(xs) != len(ys) or any(b != "*" and a != b for a, b in zip(xs, ys)):
+                return "model=%s impl=%s" % (rec["model"], rec["impl"])
+        elif x != y:
+            return "model=%s impl=%s" % (rec["model"], rec["impl"])
+    return None
+
+
+def jitter_plan_case(rng):
+    """config files about jitter inheritance: a default section with (or without) jitter, constant stages with
+    distribution none that spell jitter 0, spell another value, or omit it."""
+    dflt = {"mode": "constant", "dist": "none", "dur": S}
+    if rng.random() < 0.8:
+        dflt["jitter"] = rng.choice([0, 20, 50, 90])
+    if rng.random() < 0.5:
+        dflt["rate"] = "%d/s" % rng.choice([40, 100, 1000])
+    stages = []
+    for _ in range(rng.randint(1, 4)):
+        st = {}
+        if "rate" not in dflt or rng.random() < 0.6:
+            st["rate"] = "%d/%s" % (rng.choice([30, 100, 500]), rng.choice(["s", "100ms"]))
+        k = rng.random()
+        if k < 0.45:
+            st["jitter"] = 0
+        elif k < 0.65:
+            st["jitter"] = rng.choice([10, 50])
+        if rng.random() < 0.2:
+            st["dist"] = rng.choice(["none", "regular"])
+        if rng.random() < 0.15:
+            st["mode"] = rng.choice(["staged", "ramp"])
+            st["stages"] = "0s:100,10s:100"
+            st["freq"] = S
+            st["srate"], st["erate"] = "10/s", "100/s"
+        stages.append(st)
+    top = "scenario=%s,maxdur=%d,conc=2,maxit=0,igndrop=1" % (hx("scn"), 10 * S)
+    return "plan 0 %s %s %s" % (top, enc_stage(dflt), " ".join(enc_stage(s) or "-" for s in stages))
